@@ -80,7 +80,11 @@ class DesignRecorder(contextlib.AbstractContextManager):
     """wraps gnpy.core.network.set_one_amplifier / select_edfa / preselect_multiband_amps for the duration of a design.
     The wrappers call the original and log arguments, the amplifier's settings before the call and the result."""
 
-    def __init__(self):
+    def __init__(self, net=None):
+        from gnpy.core import elements as E
+        # multiband type the operator gave each multiband amplifier BEFORE the design (the design overwrites it)
+        self.mb_pre = {id(n): (n.params.type_variety or '') for n in (net.nodes() if net is not None else [])
+                       if isinstance(n, E.Multiband_amplifier)}
         self.amp_calls = {}       # id(amp object) -> record
         self.select_calls = []    # one per select_edfa call
         self.preselect_calls = []
@@ -179,7 +183,7 @@ def design(topo, eqpt, extra=(), power_mode=None, span=None, si=None, json_data=
         net = network_from_json(copy.deepcopy(json_data), eq) if json_data is not None else load_topology(topo, eq)
     except Exception as e:                                               # noqa
         raise LoadError(f'{type(e).__name__}: {e}') from e
-    with DesignRecorder() as rec:
+    with DesignRecorder(net) as rec:
         net, _req, ref = designed_network(eq, net)
     return net, eq, ref, rec
 
@@ -461,9 +465,24 @@ def design_json(json_data, eq):
     from gnpy.tools.json_io import network_from_json
     from gnpy.tools.worker_utils import designed_network
     net = network_from_json(copy.deepcopy(json_data), eq)
-    with DesignRecorder() as rec:
+    with DesignRecorder(net) as rec:
         net, _req, ref = designed_network(eq, net)
     return net, ref, rec
+
+
+def design_json_partial(json_data, eq):
+    """like design_json, but an exception raised by the design is returned instead of propagated, together with the
+    network as far as it was designed and everything the recorders saw up to that point"""
+    from gnpy.tools.json_io import network_from_json
+    from gnpy.tools.worker_utils import designed_network
+    net = network_from_json(copy.deepcopy(json_data), eq)
+    ref = exc = None
+    with DesignRecorder(net) as rec:
+        try:
+            net, _req, ref = designed_network(eq, net)
+        except Exception as e:                                           # noqa
+            exc = e
+    return net, ref, rec, exc
 
 
 def forward_oms(net, head_of='roadm A', tail='roadm B'):
@@ -508,14 +527,16 @@ def oms_traces(net, eq, ref, rec, name, mode, propagate=True, stats=None, only=N
             bn = pr['bname']
             pref = pr['pref_ch']
             ev, uids = [], []
-            for a in pr['amps']:
+            raman_seen = False       # downstream of a RamanFiber the propagated powers depend on the Raman simulation
+            for a in pr['amps']:     # settings (SimParams), not on the design alone: reproduction is not judged there
+                raman_seen = raman_seen or a['raman_before']
                 c = a['call']
                 if c is None or a['gain'] is None or a['dp'] is None or a['voa'] is None or a['p_max'] is None:
                     ev = None
                     break
                 sig = tot = NONE
                 o = obs.get(id(a['el'])) if obs else None
-                if o and bn in o and o[bn][2] > 0 and 'exc' not in obs:
+                if o and bn in o and o[bn][2] > 0 and 'exc' not in obs and not raman_seen:
                     sig, tot = udb(w2dbm(o[bn][0] / o[bn][2])), udb(w2dbm(o[bn][1] / o[bn][2]))
                 jr = 1 if a['nxt'] in (NXT_ROADM, NXT_SPAN) and not a['raman_after'] else 0
                 ev.append(dict(L=udb(a['L']), Ln=udb(a['Ln']), dev=udb(c['deviation_db']), nxt=a['nxt'],
@@ -533,7 +554,8 @@ def oms_traces(net, eq, ref, rec, name, mode, propagate=True, stats=None, only=N
                     stats['oms_skipped'] = stats.get('oms_skipped', 0) + 1
                 continue
             rd = dict(judged=0, tgt=0, obs=0, inp=0, maxloss=0)
-            if obs and 'egress' in obs and 'exc' not in obs and isinstance(egress, E.Roadm):
+            raman_seen = raman_seen or any(isinstance(el, E.RamanFiber) for el in chain)
+            if obs and 'egress' in obs and 'exc' not in obs and isinstance(egress, E.Roadm) and not raman_seen:
                 tgt = roadm_ref_target_dbm(egress, obs['egress_degree'], eq)
                 eo, ei = obs['egress'].get(bn), obs['egress_in'].get(bn)
                 if tgt is not None and eo and ei and eo[2] > 0 and ei[2] > 0:
@@ -613,7 +635,7 @@ def selection_context(eq, node, prev, nxt, band, gain, power, ext):
 EMPTY_C = dict(g=0, p=0, ext=0, hasOwn=0, hasRdm=0, bfmin=0, bfmax=0, prevFiber=0, lossCoef=0, ramanLimit=0)
 
 
-def selection_traces(net, eq, rec, name):
+def selection_traces(net, eq, rec, name, complete=True):
     """one trace per select_edfa call of the design (kind 0 / 1) and one per auto-designed multiband amplifier (2)"""
     from gnpy.core import elements as E
     band_of, member = {}, {}
@@ -630,6 +652,21 @@ def selection_traces(net, eq, rec, name):
                         member[id(a)] = el
     traces, ctx = [], []
     nf_cache = {}
+    mb_names = [g for g, a in eq['Edfa'].items() if a.type_def == 'multi_band']
+
+    def group_info(parent, prev, nxt, names):
+        """the multiband types of the library as the harness reads them, the lists that apply to `parent` and the type
+        the operator gave it before the design (NONE when it was left to auto-design)"""
+        own = list(parent.variety_list) if isinstance(getattr(parent, 'variety_list', None), list) else []
+        bl, pl = adjacent_roadm_lists(prev, nxt)
+        listed = own or bl or pl
+        groups = [dict(idx=k, alw=1 if eq['Edfa'][g].allowed_for_design else 0, listed=1 if g in listed else 0,
+                       members=[names.index(m) for m in eq['Edfa'][g].multi_band if m in names])
+                  for k, g in enumerate(mb_names)]
+        pre = rec.mb_pre.get(id(parent), '')
+        return groups, listed, (mb_names.index(pre) if pre in mb_names else NONE)
+
+    selected_parents = {}
     for n, s in enumerate(rec.select_calls):
         r = s['ctx']
         if r is None or id(r['node']) not in band_of:
@@ -642,39 +679,37 @@ def selection_traces(net, eq, rec, name):
         refused = 1 if s['exc'] else 0
         if not refused and s['chosen'] not in names:
             continue
+        groups, listed, ptype = ([], [], NONE)
+        if parent is not None:
+            groups, listed, ptype = group_info(parent, r['prev'], r['next'], names)
+            selected_parents[id(parent)] = (parent, r['prev'], r['next'])
         tname = f'{name}|sel{n}|{s["uid"]}'
         traces.append(dict(name=tname, kind=1 if parent is not None else 0, jp=jp, c=c, lib=lib,
                            chosen=names.index(s['chosen']) if not refused else 0, refused=refused,
-                           hasList=0, groups=[], members=[]))
+                           hasList=1 if listed else 0, groups=groups, ptype=ptype, named=NONE, members=[]))
         ctx.append(dict(name=tname, uid=s['uid'], gain_target=round(s['gain_target'], 6),
                         power_target=round(s['power_target'], 6), candidates_given=s['candidates'], chosen=s['chosen'],
                         own_list=own, roadm_list=rdm, models=names, raman_allowed=s['raman_allowed'],
-                        prev=type(r['prev']).__name__, next=type(r['next']).__name__))
-    for n, p in enumerate(rec.preselect_calls):
-        amps = p['amps']
-        first = next(iter(amps.values()), None)
-        parent = member.get(id(first)) if first is not None else None
-        if parent is None:
-            continue
-        own = list(parent.variety_list) if isinstance(getattr(parent, 'variety_list', None), list) else []
-        bl, pl = adjacent_roadm_lists(p['prev'], p['next'])
-        listed = own or bl or pl
+                        prev=type(r['prev']).__name__, next=type(r['next']).__name__,
+                        operator_multiband_type=rec.mb_pre.get(id(parent), '') if parent is not None else None))
+    # every multiband amplifier for which the design selected at least one band model (not for an aborted design:
+    # the amplifier the design stopped at is half-way)
+    for n, (parent, prev, nxt) in enumerate(selected_parents.values() if complete else []):
         names, lib = library_models(eq, None, [], [])
-        groups = [dict(alw=1 if a.allowed_for_design else 0, listed=1 if g in listed else 0,
-                       members=[names.index(m) for m in a.multi_band if m in names])
-                  for g, a in eq['Edfa'].items() if a.type_def == 'multi_band']
+        groups, listed, ptype = group_info(parent, prev, nxt, names)
         members = []
-        for bn, a in amps.items():
-            v = a.params.type_variety
-            b = p['bands'].get(bn)
+        for a in parent.amplifiers.values():
+            v, b = a.params.type_variety, band_of.get(id(a))
             if v in names and b:
                 members.append(dict(id=names.index(v), fmin=mhz(a.params.f_min), fmax=mhz(a.params.f_max),
                                     bfmin=mhz(b['f_min']), bfmax=mhz(b['f_max'])))
-        tname = f'{name}|mb{n}|{p["uid"]}'
+        final = parent.params.type_variety
+        tname = f'{name}|mb{n}|{parent.uid}'
         traces.append(dict(name=tname, kind=2, jp=1, c=EMPTY_C, lib=[], chosen=0, refused=0,
-                           hasList=1 if listed else 0, groups=groups, members=members))
-        ctx.append(dict(name=tname, uid=p['uid'], chosen={bn: a.params.type_variety for bn, a in amps.items()},
-                        multiband_type=parent.params.type_variety, listed=listed))
+                           hasList=1 if listed else 0, groups=groups, ptype=ptype,
+                           named=mb_names.index(final) if final in mb_names else NONE, members=members))
+        ctx.append(dict(name=tname, uid=parent.uid, chosen={bn: a.params.type_variety for bn, a in parent.amplifiers.items()},
+                        multiband_type=final, operator_multiband_type=rec.mb_pre.get(id(parent), ''), listed=listed))
     return traces, ctx
 
 
@@ -689,5 +724,5 @@ def ndjson(traces):
 __all__ = ['SHIPPED', 'LoadError', 'load_equipment', 'load_topology', 'DesignRecorder', 'design', 'walk_oms', 'oms_profile',
            'design_bands_of', 'propagate_oms', 'design_load', 'line_topology', 'udb', 'INF', 'NONE', 'w2dbm',
            'roadm_ref_target_dbm', 'band_name', 'nch_of', 'ndjson', 'NXT_ROADM', 'NXT_SPAN', 'NXT_AMP', 'NXT_OTHER',
-           'oms_traces', 'step_in_domain', 'passive_loss', 'amp_members', 'synthetic_equipment', 'design_json',
+           'oms_traces', 'step_in_domain', 'passive_loss', 'amp_members', 'synthetic_equipment', 'design_json', 'design_json_partial',
            'forward_oms', 'selection_traces', 'stripped_topology', 'library_models', 'selection_context', 'EMPTY_C', 'mhz']
